@@ -25,6 +25,7 @@ def run(ctx: Ctx, chk) -> None:
     chk.run_rule(gate1, ctx)
     chk.run_rule(learn1, ctx)
     chk.run_rule(who_version, ctx)
+    chk.run_rule(report_total, ctx)
 
 
 def vtuple(s: str):
@@ -309,14 +310,14 @@ def copies1(ctx: Ctx, chk) -> None:
                         continue
                     n += 1
                     chk.instance(rule)
-                    owner_ok = (f.cls is not None and f.cls.fq == GW and (f.name == "__init__" or f.is_setter())) or (f.fq == "aiomysensors.model.message.MessageSchema.set_protocol") or _private_helper_of_owners(ctx, f)
+                    owner_ok = (f.cls is not None and f.cls in ctx.cls(GW).repo_mro() and (f.name == "__init__" or f.is_setter())) or (f.fq == "aiomysensors.model.message.MessageSchema.set_protocol") or _private_helper_of_owners(ctx, f)
                     if owner_ok:
                         chk.ok(rule, fkey(f, node), f"{f.qualname} may write {w}", ctx.loc(f, node), sample=n <= 2)
                     else:
                         chk.refute(rule, fkey(f, node), f"{f.qualname} writes {w}: the copies of the active protocol can drift apart", ctx.loc(f, node))
     chk.floor(rule, "writes of protocol state", n, 3)
     gw = ctx.cls(GW)
-    for fl in gw.methods.values():
+    for fl in gw.mro_methods().values():
         for f in fl:
             stores = [s for s in ctx.own_nodes(f) if isinstance(s, ast.Assign) and any(isinstance(t, ast.Attribute) and t.attr == "_protocol" for t in s.targets)]
             if not stores:
@@ -577,3 +578,93 @@ def learn1(ctx: Ctx, chk) -> None:
             chk.ok(rule, f"presentation(node 0)@{V}", "every normal path consistent with child 255 and node 0 calls handle_i_version", locp, sample=False)
         else:
             chk.refute(rule, "presentation(node 0)", why, locp or "src/aiomysensors/model/protocol/protocol_14.py", version=V)
+
+
+def _version_functions(ctx: Ctx) -> list:
+    """The version-reply handler definitions of every protocol version, the protocol_version setter, get_protocol
+    and the repository helpers they call (not the gateway's send / listen machinery)."""
+    from .common import callee_names
+
+    I = ctx.I
+    cells = tables.handler_cells(ctx)
+    out: list = []
+    for V in ctx.versions:
+        ver_val = next((v for v, nm in I.folder.enum_canonical(I.vclass(V, "Internal")).items() if nm == "I_VERSION"), None)
+        cal = cells[V].get(("internal", ver_val))
+        if cal is None:
+            continue
+        for f in tables.chain_defs(ctx, cal, V):
+            # the handler definitions themselves (decorator wrappers guard other things and are judged by C06 / C10)
+            if f.name == "handle_i_version" and f not in out:
+                out.append(f)
+    gw = ctx.cls(GW)
+    for fl in gw.mro_methods().values():
+        for f in fl:
+            if f.name == "protocol_version" and f.is_setter():
+                out.append(f)
+    out.append(ctx.func(GET))
+    work = list(out)
+    while work:
+        f = work.pop()
+        for n in ctx.own_nodes(f):
+            if isinstance(n, ast.Call):
+                for nm in callee_names(ctx, f, n):
+                    if not nm.startswith("aiomysensors.") or nm.startswith("aiomysensors.exceptions."):
+                        continue
+                    try:
+                        h = ctx.func(nm)
+                    except Exception:  # noqa: BLE001  a class (constructor) - its __init__ is not a rejection site
+                        continue
+                    if h.is_async and h.cls is not None and h.cls in gw.repo_mro():
+                        continue
+                    if h not in out:
+                        out.append(h)
+                        work.append(h)
+    return out
+
+
+def report_total(ctx: Ctx, chk) -> None:
+    rule = "REPORT-TOTAL"
+    chk.rule(rule, "a version report is never rejected by the library's own code: on the way from the version reply to the selected protocol (handler, protocol_version setter, get_protocol and their helpers) the only `raise` statements are translations, in an `except` clause, of an exception the version comparison itself raised - every release version string major.minor[.patch[.build]] selects a protocol, none is refused on its shape, length or release scheme")
+    n = 0
+    for f in _version_functions(ctx):
+        for r in [x for x in ctx.own_nodes(f) if isinstance(x, ast.Raise)]:
+            n += 1
+            chk.instance(rule)
+            key = f"{f.fq}::raise::{norm(r.exc)[:60] if r.exc is not None else 're-raise'}"
+            # enclosing except handler?
+            cur, handler = r, None
+            while cur is not None and cur is not f.node:
+                cur = ctx.prog.parents.get(cur)
+                if isinstance(cur, ast.ExceptHandler):
+                    handler = cur
+                    break
+            if handler is not None:
+                tr = ctx.prog.parents.get(handler)
+                body_ok = isinstance(tr, ast.Try) and all(_is_version_store(st) for st in tr.body)
+                if body_ok:
+                    chk.ok(rule, key, "translates an exception raised by the version comparison (the try body is only the version store / protocol selection)", ctx.loc(f, r), sample=n <= 2)
+                    continue
+                chk.refute(rule, key, f"{f.qualname} turns a failure of `{norm(tr.body[0])[:60] if isinstance(tr, ast.Try) and tr.body else '?'}` into a rejection of the version report: the try block does more than store the version / select the protocol, so a release version string can be refused for a reason other than the version comparison itself", ctx.loc(f, r))
+                continue
+            chk.refute(rule, key, f"{f.qualname} rejects a version report by itself (`{norm(r)[:80]}`): a release version string that the comparison would have ordered (for example a four-component 2.2.0.1 or a two-digit major 10.0) is refused, the reported version is not taken over and the rules of the previous protocol stay in force", ctx.loc(f, r))
+    for f in _version_functions(ctx):
+        for c in [x for x in ctx.own_nodes(f) if isinstance(x, ast.Call) and norm(x.func).rsplit(".", 1)[-1] == "AwesomeVersion"]:
+            chk.instance(rule)
+            key = f"{f.fq}::AwesomeVersion-options::{norm(c)[:60]}"
+            if c.keywords or len(c.args) != 1:
+                chk.refute(rule, key, f"`{norm(c)[:80]}` passes options to AwesomeVersion (ensure_strategy / find_first_match ...): the constructor then refuses version strings of other release schemes (10.0 and 2021.1 are detected as CalVer) that the plain comparison orders correctly", ctx.loc(f, c))
+            else:
+                chk.ok(rule, key, "plain AwesomeVersion(<version>)", ctx.loc(f, c), sample=False)
+    chk.notes[f"{rule}:functions"] = [f.fq for f in _version_functions(ctx)]
+    chk.floor(rule, "functions on the version-report path", len(_version_functions(ctx)), 3)
+
+
+def _is_version_store(st: ast.stmt) -> bool:
+    if isinstance(st, ast.Assign) and any(norm(t).endswith("protocol_version") for t in st.targets):
+        return True
+    if isinstance(st, (ast.Assign, ast.AnnAssign, ast.Return, ast.Expr)) and st.value is not None:
+        v = st.value
+        if isinstance(v, ast.Call) and norm(v.func).rsplit(".", 1)[-1] in ("get_protocol", "AwesomeVersion"):
+            return True
+    return False
